@@ -44,6 +44,8 @@ func checkC19(c *Ctx) {
 	// an unrecognised shape carries no information (their refutations still count)
 	r.Advisory("R2.prefix", "R6.parity")
 	r.Advisory("R3.count", "R6.parity")
+	// R6.matrix needs a function matrixLine(n, m); where it is gone the parity rule still decides the lines Encode uses
+	r.Advisory("R6.matrix", "R6.parity")
 	r.Rule("R4.rows", "the row index selected by matrixLine is not provably >= 1 (or >= mm) nor provably <= m-2: every row stays selectable")
 	r.Explanation = "E3 obligations over fragmentation.Encode and callees; R2/R3 are def-use and linear-fact arguments on the SSA of Encode; the pure helpers isPower2 and prbs23 are decided for all inputs by the bit-level engine (R5); for a grid of fragment counts and sizes the whole encoder is interpreted on symbolic data and compared with an independent transcription of the parity matrix (R6); the encoder keeps no state (R7); recoverability (rank of the matrix) is declined"
 	guardsSelfTest(c, "R9.selftest")
@@ -72,6 +74,7 @@ func checkC19(c *Ctx) {
 	c19Rows(c, E, ml)
 	c19Helpers(c)
 	c19Parity(c)
+	c19Matrix(c)
 	ruleStatelessGlobals(c, "R7.stateless", enc)
 	r.Assumptions = guardsAssumptions
 }
